@@ -826,7 +826,7 @@ static int ec_substitute(char *loc, char *cmd, char *arg, char *txt)
 		char *ln0 = ln;
 		struct sbuf *r = NULL;
 		while (rstr_find(re, ln, LEN(offs) / 2, offs,
-				ln > ln0 ? RE_NOTBOL : 0) >= 0) {
+				ln > ln0 ? RE_NOTBOL | RE_CONT : 0) >= 0) {
 			if (!r)
 				r = sbuf_make();
 			sbuf_mem(r, ln, offs[0]);
